@@ -32,6 +32,8 @@ def _val(draw, seg):
                               st.integers(0, 10**15).map(str), st.sampled_from(['1234.567', '3.1415926', '1000000', '123456789.125', '0.0001', '99999999999999.5'])))
     if f == 're':
         return draw(st.sampled_from(R.RE_VALUES.get(seg[3], []) * 3 + R.VALUE_POOL['re']))
+    if f == 'rex':
+        return draw(st.sampled_from(R.RE_VALUES.get(seg[3], []) * 3 + R.VALUE_POOL['rex']))
     if f == 'path':
         return draw(st.one_of(st.sampled_from(R.VALUE_POOL['path']), st.lists(st.sampled_from(['a', 'b', 'end', 'le', 'x.y', 'é', '1']), min_size=1, max_size=4).map('/'.join)))
     return draw(st.one_of(st.sampled_from(R.VALUE_POOL[None]), st.text(st.characters(exclude_categories=['Cs'], exclude_characters='/'), min_size=1, max_size=6),
@@ -129,7 +131,7 @@ def check_case(ctx, case, witness=False):
     # literals verbatim and in order
     # (url() is documented by the suite to return the path without the rule's leading '/')
     lits = [(s[1][1:] if i == 0 else s[1]) if s[0] == 'lit' else None for i, s in enumerate(ast)]
-    rx = ''.join(re.escape(t) if t is not None else '(.*)' for t in lits)
+    rx = ''.join(re.escape(t) if t is not None else '(.*)' for t in lits)          # (a rex selector is not part of the built URL)
     if not re.fullmatch(rx, url, re.S) and not re.fullmatch(re.escape('/') + rx, url, re.S):
         raise CheckFailure(f'Route({text!r}).url(*{anon!r}, **{named!r}) = {url!r}: the literal parts {[s[1] for s in ast if s[0] == "lit"]} do not appear verbatim and in order')
     ep2, err2 = router.resolve(url, ['GET'])
